@@ -1,5 +1,6 @@
 #!/bin/sh
-# Derives the per-package copies of the common judge (only the package clause differs).
+# Derives the per-package copies of the common files (only the package clause differs).
 cd "$(dirname "$0")"
 sed 's/^package util$/package memoryevict/' judge_test.go > judge_mem_test.go
 sed 's/^package util$/package cpuevict/' judge_test.go > judge_cpu_test.go
+sed 's/^package memoryevict$/package cpuevict/' round_test.go > round_cpu_test.go
